@@ -537,10 +537,41 @@ def run(ctx: Ctx) -> None:
         ctx.failures.append(Failure('update-class', canon, replay_obj, f'{what}: {json.dumps(details, default=str)[:500]}'))
     if drv is not None:
         drv.close()
+    malformed_stream(ctx, sessions, [c for c in cases if c['origin'] == 'generated'], 300 if quick else 3000)
     for k, v in seen_sig.items():
         ctx.notes.append(f'failure class {k[0]} {k[1]}: {v} case(s)')
     ctx.extra['recorded_messages'] = len(rec)
     ctx.extra['session_shapes'] = [S.shape() for S in sessions]
+
+
+def malformed_stream(ctx: Ctx, sessions: list, cases: list, n: int) -> None:
+    """Single-point corruptions and truncations of generated bodies: NOT part of the property (C08 and
+    C03 judge what must happen to them). Run to show where the two readings part on malformed input:
+    the reference answers with the RFC 4271 NOTIFICATION, ExaBGP may apply RFC 7606. Counters only."""
+    rng = ctx.rng
+    if not cases or ctx.time_left() < 15:
+        return
+    picks = [rng.choice(cases) for _ in range(n)]
+    bodies = []
+    for c in picks:
+        b = bytearray(c['body'])
+        x = rng.random()
+        if x < 0.5 and b:
+            b[rng.randrange(len(b))] ^= 1 << rng.randrange(8)
+        elif x < 0.75 and len(b) > 4:
+            del b[rng.randrange(4, len(b)) :]
+        else:
+            b += bytes([rng.getrandbits(8)])
+        bodies.append(bytes(b))
+    outs = common.run_driver('drv_wire', [f'wire decode {sessions[c["s"]].params()} {b.hex() or "-"}' for c, b in zip(picks, bodies)])
+    for c, b, o in zip(picks, bodies, outs):
+        if ctx.time_left() < 8:
+            break
+        res = sessions[c['s']].decode(b)
+        ref = 'accepts' if o.startswith('ok') else 'err ' + o[4:]
+        impl = 'accepts' if res['kind'] == 'ok' else f'notify {res["code"]} {res["sub"]}' if res['kind'] == 'notify' else 'raises ' + res['exc']
+        ctx.count(f'malformed: reference {ref} / exabgp {impl}')
+        ctx.evaluations += 1
 
 
 def replay(path: str) -> int:
